@@ -138,6 +138,7 @@ type stepResult struct {
 	Metrics   map[string]float64 `json:"metrics"`
 	Session   map[string]string  `json:"session,omitempty"`
 	Panic     string             `json:"panic,omitempty"`
+	Runaway   bool               `json:"runaway,omitempty"` // the step was cut off after maxTransmissions datagrams
 	ElapsedMs float64            `json:"elapsed_ms"`
 }
 
@@ -158,7 +159,13 @@ type simTransport struct {
 	closed  bool
 	closeErr error
 	logFrom int
+	cancel  context.CancelFunc // ends the step when it transmits without bound
+	runaway bool
 }
+
+// maxTransmissions bounds one step: a correct library never needs more in these scenarios; a retry loop
+// that spins (zero back-off) is cut off and reported instead of filling the memory.
+const maxTransmissions = 300
 
 func (t *simTransport) Address() net.Addr { return &net.UDPAddr{IP: net.IPv4(127, 0, 0, 1), Port: 623} }
 func (t *simTransport) Close() error      { t.closed = true; return t.closeErr }
@@ -168,6 +175,13 @@ var errLost = errors.New("i/o timeout (simulated lost reply)")
 func (t *simTransport) Send(ctx context.Context, d []byte) ([]byte, error) {
 	if err := ctx.Err(); err != nil {
 		return nil, err
+	}
+	if t.n >= maxTransmissions {
+		t.runaway = true
+		if t.cancel != nil {
+			t.cancel()
+		}
+		return nil, context.Canceled
 	}
 	for _, e := range t.events {
 		if e.Before == t.n {
@@ -653,6 +667,7 @@ func runStepM(st *scnState, step *scnStep, withMetrics bool) (res stepResult) {
 	}
 	ctx, cancel := context.WithTimeout(context.Background(), time.Duration(ctxMs)*time.Millisecond)
 	defer cancel()
+	t.cancel, t.runaway = cancel, false
 	start := time.Now()
 	func() {
 		defer func() {
@@ -852,6 +867,7 @@ func runStepM(st *scnState, step *scnStep, withMetrics bool) (res stepResult) {
 		res.Metrics = metricsDelta(before, gatherMetrics())
 	}
 	res.Sent, res.Delivered, res.Actions = t.sent, t.deliv, t.actions
+	res.Runaway = t.runaway
 	for _, e := range st.b.Log[logFrom:] {
 		res.BMC = append(res.BMC, bmcEvent{Kind: e.Kind, Accepted: e.Accepted, Reject: e.Reject, SID: e.SessionID, Seq: e.Seq,
 			PType: e.PayloadType, Auth: e.Authenticated, Enc: e.Encrypted, InOrder: e.InOrder, IV: e.IVHex,
